@@ -1,4 +1,64 @@
-/- driver operations of C03 (stub: no model yet) -/
+/- driver operations of C03 (Umeyama certificate, refusal classes, rational formulas) -/
+import EvoModel.Model.Umeyama
 namespace Evo.Drv.C03
-def handle (_op : String) (_args : List String) : Option String := none
+open Evo Evo.Ume
+
+def toPoints : List Rat → Option (List (V3 Rat))
+  | [] => some []
+  | a :: b :: c :: r => (toPoints r).map (fun l => ⟨a, b, c⟩ :: l)
+  | _ => none
+
+/-- read a length-prefixed flat list `3n x1 y1 z1 …` as points -/
+def readPoints (l : List String) : Option (List (V3 Rat) × List String) := do
+  let (rs, rest) ← readRatList l
+  let ps ← toPoints rs
+  some (ps, rest)
+
+def b (x : Bool) : String := if x then "1" else "0"
+
+/-- ops:
+  `umecert ε ws <x> <y> R(9) t(3) c` → `ortho det t sym psd scale all refusalClass`
+  `refuse <x> <y>`                   → `refuses refusalClass`
+  `formulas <x> <y> R(9) c`          → `t*(3) trA var`   (t* = μy − c·R·μx)
+  `resid <x> <y> R(9) t(3) c`        → rational residual -/
+def handle (op : String) (args : List String) : Option String :=
+  match op, args with
+  | "umecert", eps :: ws :: rest => do
+      let eps ← parseRat? eps
+      let ws := ws == "1"
+      let (x, rest) ← readPoints rest
+      let (y, rest) ← readPoints rest
+      let (rr, rest) ← takeN 9 rest
+      let R ← (parseRats? rr).bind M3.ofList
+      let (tt, rest) ← takeN 3 rest
+      let t ← (parseRats? tt).bind V3.ofList
+      let c ← rest.head?.bind parseRat?
+      if x.length != y.length || x.isEmpty then some ("0 0 0 0 0 0 0 " ++ toString (refusalClass x y)) else
+      let r := [certOrtho eps R, certDet eps R, certT eps x y R t c, certSym eps x y R, certPsd eps x y R,
+                certScale eps ws x y R c, umeCert eps ws x y R t c]
+      some (" ".intercalate (r.map b) ++ " " ++ toString (refusalClass x y))
+  | "refuse", rest => do
+      let (x, rest) ← readPoints rest
+      let (y, _) ← readPoints rest
+      if x.isEmpty || y.isEmpty then some (b (shapeMismatch x y) ++ " " ++ (if shapeMismatch x y then "1" else "2")) else
+      some (b (umeRefuses x y) ++ " " ++ toString (refusalClass x y))
+  | "formulas", rest => do
+      let (x, rest) ← readPoints rest
+      let (y, rest) ← readPoints rest
+      let (rr, rest) ← takeN 9 rest
+      let R ← (parseRats? rr).bind M3.ofList
+      let c ← rest.head?.bind parseRat?
+      if x.length != y.length || x.isEmpty then some "REFUSED" else
+      some (showRats ((tFormula x y R c).toList ++ [M3.trace (amat x y R), var x]))
+  | "resid", rest => do
+      let (x, rest) ← readPoints rest
+      let (y, rest) ← readPoints rest
+      let (rr, rest) ← takeN 9 rest
+      let R ← (parseRats? rr).bind M3.ofList
+      let (tt, rest) ← takeN 3 rest
+      let t ← (parseRats? tt).bind V3.ofList
+      let c ← rest.head?.bind parseRat?
+      some (showRat (resid x y R t c))
+  | _, _ => none
+
 end Evo.Drv.C03
